@@ -15,24 +15,25 @@ import (
 // C11 — concurrent sink invocations are isolated; failures go to their own event.
 
 type c11Sink struct {
-	Name   string   `json:"name"`
-	Kinds  []string `json:"kinds"`
-	Prio   int      `json:"prio"`
-	Loops  int      `json:"loops"`
-	Shared bool     `json:"shared,omitempty"` // calls a shared global function
-	Interp bool     `json:"interp,omitempty"` // error detail built by string interpolation (parses at run time)
-	Sleep  int      `json:"sleep,omitempty"`  // sleep(micros) inside the sink (stalled party)
-	Spawn  int      `json:"spawn,omitempty"`  // child events added by the sink (handled by sink sc on other workers)
-	Count  bool     `json:"count,omitempty"`  // the sink increments a global counter inside a mutex block
-	Mode   int      `json:"mode,omitempty"`   // how the sink fails: 0 raise(), 1 out-of-bounds assignment in the sink body (plain scope error), 2 return <value>
-	Foreign int     `json:"foreign,omitempty"` // 1: the sink starts a cascade of its own with addEvent(..., scope) - scope {} ; 2: scope {"": true}. Its sink fails; nothing of it belongs to this event
+	Name    string   `json:"name"`
+	Kinds   []string `json:"kinds"`
+	Prio    int      `json:"prio"`
+	Loops   int      `json:"loops"`
+	Shared  bool     `json:"shared,omitempty"`  // calls a shared global function
+	Interp  bool     `json:"interp,omitempty"`  // error detail built by string interpolation (parses at run time)
+	Sleep   int      `json:"sleep,omitempty"`   // sleep(micros) inside the sink (stalled party)
+	Spawn   int      `json:"spawn,omitempty"`   // child events added by the sink (handled by sink sc on other workers)
+	Count   bool     `json:"count,omitempty"`   // the sink increments a global counter inside a mutex block
+	Mode    int      `json:"mode,omitempty"`    // how the sink fails: 0 raise(), 1 out-of-bounds assignment in the sink body (plain scope error), 2 return <value>
+	Foreign int      `json:"foreign,omitempty"` // 1: the sink starts a cascade of its own with addEvent(..., scope) - scope {} ; 2: scope {"": true}. Its sink fails; nothing of it belongs to this event
 }
 
 type c11Event struct {
 	ID      int             `json:"id"`
 	Kind    string          `json:"kind"`
 	Fail    map[string]bool `json:"fail"`
-	FailC   bool            `json:"failc,omitempty"` // the child-event sink fails for this event's children
+	FailC   bool            `json:"failc,omitempty"`  // the child-event sink fails for this event's children
+	FailGo  bool            `json:"failgo,omitempty"` // the Go rule fails for this event
 	Wait    bool            `json:"wait"`
 	ViaECAL bool            `json:"via_ecal,omitempty"`
 	PauseNs int             `json:"pause,omitempty"`
@@ -41,6 +42,7 @@ type c11Event struct {
 type c11Plan struct {
 	Globals  bool         `json:"globals,omitempty"`  // the program has globals named like the sinks' locals (event, id, acc)
 	Observer bool         `json:"observer,omitempty"` // a root monitor error observer is registered
+	GoRule   bool         `json:"go_rule,omitempty"`  // the embedding program registers a rule of its own (Go action, runs after all sinks) that fails with a plain Go error for some events
 	Nest     bool         `json:"nest,omitempty"`     // the shared counter function takes its mutex re-entrantly
 	Workers  int          `json:"workers"`
 	Sinks    []c11Sink    `json:"sinks"`
@@ -104,6 +106,7 @@ func c11Gen(r *simrt.RNG, tier string) interface{} {
 	}
 	p.Globals = r.Bool(0.3)
 	p.Observer = r.Bool(0.3)
+	p.GoRule = r.Bool(0.25)
 	p.Nest = r.Bool(0.4)
 	nc := 2 + r.Intn(3)
 	id := 1
@@ -120,6 +123,7 @@ func c11Gen(r *simrt.RNG, tier string) interface{} {
 				e.Fail[s.Name] = r.Bool(0.4)
 			}
 			e.FailC = r.Bool(0.4)
+			e.FailGo = r.Bool(0.5)
 			if family {
 				e.Kind = []string{"c11.a", "c11.b"}[r.Intn(2)]
 				e.Wait = r.Bool(0.2)
@@ -312,6 +316,18 @@ func c11Run(p *c11Plan) {
 	if _, err := loadProgram(erp, "c11", src, vs); err != nil {
 		simrt.Fail("oracle:setup", "setup", "program does not load: %v\n%s", err, src)
 	}
+	if p.GoRule {
+		err := erp.Processor.AddRule(&engine.Rule{Name: "goaudit", Desc: "rule of the embedding program", KindMatch: []string{"c11.*"}, ScopeMatch: []string{}, Priority: 1000,
+			Action: func(pr engine.Processor, m engine.Monitor, e *engine.Event, tid uint64) error {
+				if f, _ := e.State()["failgo"].(bool); f {
+					return fmt.Errorf("audit failed for %v", e.State()["id"])
+				}
+				return nil
+			}})
+		if err != nil {
+			simrt.Fail("oracle:setup", "setup", "AddRule: %v", err)
+		}
+	}
 	// the processor's error observer: called once per failing event with the root monitor
 	// of that event's cascade
 	notified := map[int]int{}
@@ -339,6 +355,7 @@ func c11Run(p *c11Plan) {
 	// reports[event id] = sink -> (type, detail, data) as reported
 	type rep struct {
 		typ, detail, data string
+		text              string // full error text (only looked at for the Go rule)
 	}
 	reports := map[int]map[string]rep{}
 	reported := map[int]bool{}
@@ -352,6 +369,15 @@ func c11Run(p *c11Plan) {
 		if reports[evID] == nil {
 			reports[evID] = map[string]rep{}
 		}
+		if sink == "goaudit" {
+			// a plain Go error: no type / detail / data; what matters is that the entry is there
+			// and carries the text the action returned
+			if !strings.Contains(r.typ+r.detail+r.data+r.text, fmt.Sprintf("audit failed for %v", float64(evID))) {
+				simrt.Fail("oracle:error-report", "error-report/wrong", "%s: the entry for the Go rule of event %d does not carry its error text: %+v", how, evID, r)
+			}
+			r = rep{typ: "GO", detail: "GO", data: "GO"}
+		}
+		r.text = ""
 		if _, dup := reports[evID][sink]; dup {
 			simrt.Fail("oracle:error-attribution", "error-duplicated", "%s: error of sink %s reported twice for event %d", how, sink, evID)
 		}
@@ -363,6 +389,7 @@ func c11Run(p *c11Plan) {
 			st["fail"+s.Name] = e.Fail[s.Name]
 		}
 		st["failc"] = e.FailC
+		st["failgo"] = e.FailGo
 		return st
 	}
 	var wg simsync.WaitGroup
@@ -384,6 +411,7 @@ func c11Run(p *c11Plan) {
 						fl = append(fl, fmt.Sprintf("\"fail%s\": %v", s.Name, e.Fail[s.Name]))
 					}
 					fl = append(fl, fmt.Sprintf("\"failc\": %v", e.FailC))
+					fl = append(fl, fmt.Sprintf("\"failgo\": %v", e.FailGo))
 					code := fmt.Sprintf("addEventAndWait(%q, %q, {\"id\": %d, %s})", name, e.Kind, e.ID, strings.Join(fl, ", "))
 					res, err := loadProgram(erp, "client", code, vs.NewChild(fmt.Sprintf("client%d-%d", ci, i)))
 					if err != nil {
@@ -397,7 +425,7 @@ func c11Run(p *c11Plan) {
 							forID, _ := num(ev["state"].(map[interface{}]interface{})["id"])
 							for sk, ei := range item["errors"].(map[interface{}]interface{}) {
 								em := ei.(map[interface{}]interface{})
-								record(e.ID, int(forID), fmt.Sprint(ev["name"]), fmt.Sprint(sk), rep{fmt.Sprint(em["type"]), fmt.Sprint(em["detail"]), fmt.Sprint(em["data"])}, "ECAL addEventAndWait")
+								record(e.ID, int(forID), fmt.Sprint(ev["name"]), fmt.Sprint(sk), rep{fmt.Sprint(em["type"]), fmt.Sprint(em["detail"]), fmt.Sprint(em["data"]), fmt.Sprint(em["error"])}, "ECAL addEventAndWait")
 							}
 						}
 					}
@@ -412,9 +440,9 @@ func c11Run(p *c11Plan) {
 						for _, te := range rm.AllErrors() {
 							forID, _ := num(te.Event.State()["id"])
 							for sk, er := range te.ErrorMap {
-								r := rep{"?", er.Error(), ""}
+								r := rep{"?", er.Error(), "", er.Error()}
 								if d, ok := er.(*util.RuntimeErrorWithDetail); ok {
-									r = rep{d.Type.Error(), d.Detail, fmt.Sprint(d.Data)}
+									r = rep{d.Type.Error(), d.Detail, fmt.Sprint(d.Data), er.Error()}
 								}
 								record(e.ID, int(forID), te.Event.Name(), sk, r, "AddEventAndWait")
 							}
@@ -428,9 +456,9 @@ func c11Run(p *c11Plan) {
 						for _, te := range rm.AllErrors() {
 							forID, _ := num(te.Event.State()["id"])
 							for sk, er := range te.ErrorMap {
-								r := rep{"?", er.Error(), ""}
+								r := rep{"?", er.Error(), "", er.Error()}
 								if d, ok := er.(*util.RuntimeErrorWithDetail); ok {
-									r = rep{d.Type.Error(), d.Detail, fmt.Sprint(d.Data)}
+									r = rep{d.Type.Error(), d.Detail, fmt.Sprint(d.Data), er.Error()}
 								}
 								record(ev.ID, int(forID), te.Event.Name(), sk, r, "finish handler")
 							}
@@ -511,7 +539,7 @@ func c11Run(p *c11Plan) {
 						pr.sink, e.ID, pr.id, pr.acc, pr.idAgain, pr.name, pr.arr0)
 				}
 			}
-			if len(trig) > 0 && !reported[e.ID] {
+			if (len(trig) > 0 || p.GoRule) && !reported[e.ID] {
 				simrt.Fail("oracle:error-report", "no-report", "event %d: cascade never reported completion", e.ID)
 			}
 			want := map[string]rep{}
@@ -526,7 +554,7 @@ func c11Run(p *c11Plan) {
 						mode = s.Mode
 					}
 				}
-				want[failing] = rep{"T-" + failing, detail, fmt.Sprint([]interface{}{float64(e.ID), float64(e.ID)})}
+				want[failing] = rep{typ: "T-" + failing, detail: detail, data: fmt.Sprint([]interface{}{float64(e.ID), float64(e.ID)})}
 				if g, ok := reports[e.ID][failing]; ok && mode != 0 {
 					// type and wording of these failures are the interpreter's; what the invocation
 					// itself contributes is the index (mode 1) / the returned value (mode 2)
@@ -546,9 +574,12 @@ func c11Run(p *c11Plan) {
 					want[failing] = w
 				}
 			}
+			if p.GoRule && failing == "" && e.FailGo {
+				want["goaudit"] = rep{typ: "GO", detail: "GO", data: "GO"}
+			}
 			if e.FailC {
 				for name := range wantChildren {
-					want[name+"/sc"] = rep{"T-sc", fmt.Sprint(float64(e.ID)), fmt.Sprint([]interface{}{float64(e.ID), float64(e.ID)})}
+					want[name+"/sc"] = rep{typ: "T-sc", detail: fmt.Sprint(float64(e.ID)), data: fmt.Sprint([]interface{}{float64(e.ID), float64(e.ID)})}
 				}
 			}
 			gotR := reports[e.ID]
